@@ -5,6 +5,7 @@ CONSTANTS
   Unguarded = {"FpCertChildIndex"}
   Unwrapped = {}
   DepthRestore = "parent"
+  ContextDropped = FALSE
 INIT Init
 NEXT Next
 INVARIANTS
